@@ -209,12 +209,14 @@ _SORTED_BY_CHROM = ("forall(0, len(T.data), lambda a: forall(0, len(T.data), lam
 _RUN_CLAUSES = [
     # the runs: consecutive rows [group_lo(r), group_lo(r+1)), r < n_groups(), partition the table in order
     ("one_row_per_run", "len(result.data) == n_groups() and group_lo(0) == 0 and group_lo(n_groups()) == len(cnarr.data) and "
-                        "forall(0, n_groups(), lambda r: LO < HI)"),
+                        "forall(0, n_groups(), lambda r: 0 <= LO and LO < HI and HI <= len(cnarr.data))"),
     # inside a run neighbouring segments share chromosome and level ...
     ("runs_share_chromosome", "forall(0, n_groups(), lambda r: forall(0, len(cnarr.data), lambda k: implies(LO <= k and k + 1 < HI, "
                               "cnarr.data.chromosome[k] == cnarr.data.chromosome[k + 1])))"),
     ("runs_share_level", "forall(0, n_groups(), lambda r: forall(0, len(cnarr.data), lambda k: implies(LO <= k and k + 1 < HI, "
                          "levels[k] == levels[k + 1])))"),
+    ("levels_constant_in_run", "forall(0, n_groups(), lambda r: forall(0, len(cnarr.data), lambda k: implies(LO <= k and k < HI, "
+                               "implies(use('adjacent_equal_constant', f=levels, lo=LO, k=k), levels[k] == levels[LO]))))"),
     # ... and a run ends only where the chromosome or the level changes (runs are maximal)
     ("runs_are_maximal", "forall(1, n_groups(), lambda r: let(lambda k: cnarr.data.chromosome[k] != cnarr.data.chromosome[k + 1] or "
                          "levels[k] != levels[k + 1], LO - 1))"),
@@ -229,6 +231,11 @@ _RUN_CLAUSES = [
                  "sumof(Vec(HI - LO, lambda j: cnarr.data.weight[LO + j])), "
                  "sumof(Vec(HI - LO, lambda j: cnarr.data.log2[LO + j])) / (HI - LO)))"),
 ]
+_RUN_CLAUSES.append(
+    # ... and whose copy number lies within the range of the run's copy numbers
+    ("run_cn_within_range", "forall(0, n_groups(), lambda r: forall(lambda c: implies(uf_bool('bound', c), "
+                            "implies(forall(0, HI - LO, lambda j: c <= cnarr.data.cn[j + LO]), c <= result.data.cn[r]) and "
+                            "implies(forall(0, HI - LO, lambda j: cnarr.data.cn[j + LO] <= c), result.data.cn[r] <= c))))"))
 _RUN_CLAUSES = [(lab, t.replace("LO", _LO).replace("HI", _HI)) for lab, t in _RUN_CLAUSES]
 _RESULT_T = ObjT("CopyNumArray", data=TabT(index="range", chromosome=CHROM, start=Int, end=Int, log2=Real, gene=GENE, probes=Int,
                                            weight=Real, cn=Real), meta=DictT())
@@ -261,7 +268,9 @@ contract(
         ("key_constant_in_run", "forall(0, n_groups(), lambda r: forall(0, len(cnarr.data), lambda k: implies(LO <= k and k < HI, "
                                 "local_change_levels[k] == local_change_levels[LO])))".replace("LO", _LO).replace("HI", _HI)),
         ("key_steps_between_runs", "forall(1, n_groups(), lambda r: let(lambda k: local_change_levels[k] < local_change_levels[k + 1], LO - 1))".replace("LO", _LO)),
-    ] + _RUN_CLAUSES,
+    ] + [(lab, text, {"run_cn_within_range": ["cn_within_the_runs_range"], "run_log2": ["weight_averaged_log2", "sums_conserved"],
+                      "run_totals": ["sums_conserved"], "run_summary": ["span", "one_row"]}.get(lab))
+         for lab, text in _RUN_CLAUSES],
     props=("C14",), domain="skip",
     canaries=[("levels_ignored", "change_levels += chrom_col", "change_levels = chrom_col"),
               ("chromosomes_ignored", "change_levels += chrom_col", "pass"),
@@ -280,7 +289,8 @@ def _filter_contract(key, level_expr, extra_params=None, canaries=()):
     contract(
         key, params=params, returns=_RESULT_T,
         requires=[_SORTED_BY_CHROM.replace("T", "segarr"), "forall(0, len(segarr.data), lambda k: segarr.data.weight[k] >= 0)"],
-        ensures=[(lab, wrap % text) for lab, text in _RUN_CLAUSES],
+        # each clause follows from the merger's clause of the same name (plus one_row_per_run for the run boundaries)
+        ensures=[(lab, wrap % text, [lab, "one_row_per_run"]) for lab, text in _RUN_CLAUSES],
         ghost=dict(decorated="require_column only raises when the named columns are missing; they are present here"),
         props=("C14",), domain="skip", canaries=list(canaries),
     )
@@ -297,6 +307,77 @@ _filter_contract("cnvlib/segfilters.py::sem",
                  canaries=[("margin_sign", 'levels[segarr["log2"] - margin > 0] = 1', 'levels[segarr["log2"] + margin > 0] = 1')])
 _filter_contract("cnvlib/segfilters.py::cn", "segarr.data.cn[k]",
                  canaries=[("wrong_column", 'segarr["cn"]', 'segarr["probes"]')])
+
+
+# ampdel: the same merger on the levels deleted (cn 0) / amplified (cn >= 5) / neither, then only the deleted and the
+# amplified runs are kept.  The bounds 0, 1, 4, 5 are the points at which the merger's "copy number within the run's range"
+# clause is used; the marker uf_bool('bound', .) is uninterpreted, so a clause proved under `implies(_BOUNDS, P)` with P
+# free of the marker is P itself (take the interpretation that is true everywhere).
+_BOUNDS = "(uf_bool('bound', 0) and uf_bool('bound', 1) and uf_bool('bound', 4) and uf_bool('bound', 5))"
+_ALEV = "ite(segarr.data.cn[k] == 0, -1, ite(segarr.data.cn[k] >= 5, 1, 0))"
+_LEVAT = "ite(segarr.data.cn[LO] == 0, -1, ite(segarr.data.cn[LO] >= 5, 1, 0))"
+_AWRAP = "let(lambda cnarr, levels: %s, segarr, Vec(len(segarr.data), lambda k: " + _ALEV + "))"
+
+
+def _amp(text):
+    return (text.replace("ALEV", _ALEV).replace("LEVAT", _LEVAT).replace("BOUNDS", _BOUNDS)
+            .replace("LO", _LO).replace("HI", _HI))
+
+
+contract(
+    "cnvlib/segfilters.py::ampdel",
+    params=dict(segarr=_SEGT),
+    returns=ObjT("CopyNumArray", data=TabT(index="masked", chromosome=CHROM, start=Int, end=Int, log2=Real, gene=GENE, probes=Int,
+                                           weight=Real, cn=Real), meta=DictT()),
+    requires=[_SORTED_BY_CHROM.replace("T", "segarr"),
+              "forall(0, len(segarr.data), lambda k: segarr.data.weight[k] >= 0 and segarr.data.cn[k] >= 0)"],
+    ensures=[
+        # the runs [group_lo(r), group_lo(r+1)) partition the table, share chromosome and level, and are maximal
+        ("runs_partition_the_table", _amp("group_lo(0) == 0 and group_lo(n_groups()) == len(segarr.data) and "
+                                          "forall(0, n_groups(), lambda r: 0 <= LO and LO < HI and HI <= len(segarr.data))"),
+         ["one_row_per_run"]),
+        ("runs_share_chromosome", _AWRAP % dict(_RUN_CLAUSES)["runs_share_chromosome"], ["runs_share_chromosome", "one_row_per_run"]),
+        ("run_members_share_the_level", _amp("forall(0, n_groups(), lambda r: forall(0, len(segarr.data), lambda k: "
+                                             "implies(LO <= k and k < HI, ALEV == LEVAT)))"),
+         ["levels_constant_in_run", "one_row_per_run"]),
+        ("runs_are_maximal", _AWRAP % dict(_RUN_CLAUSES)["runs_are_maximal"], ["runs_are_maximal", "one_row_per_run"]),
+        # stepping stone: the merged copy number of a run is 0 for a deleted run, at least 5 for an amplified one and
+        # between 1 and 4 otherwise
+        ("merged_cn_by_level", _amp("implies(BOUNDS, forall(0, n_groups(), lambda r: implies(LEVAT == -1, local_cnarr.data.cn[r] == 0) and "
+                                    "implies(LEVAT == 1, local_cnarr.data.cn[r] >= 5) and "
+                                    "implies(LEVAT == 0, 1 <= local_cnarr.data.cn[r] and local_cnarr.data.cn[r] <= 4)))"),
+         ["run_members_share_the_level", "run_cn_within_range", "one_row_per_run"]),
+        # result.data.index[j] is the number of the run that row j comes from: exactly the deleted and the amplified runs are
+        # kept, in order, each from its first start to its last end, with the run's sums and weight-averaged log2
+        ("kept_rows_are_deleted_or_amplified_runs", _amp(
+            "implies(BOUNDS, forall(0, len(result.data), lambda j: let(lambda r: 0 <= r and r < n_groups() and LEVAT != 0 and "
+            "result.data.chromosome[j] == segarr.data.chromosome[LO] and result.data.start[j] == segarr.data.start[LO] and "
+            "result.data.end[j] == segarr.data.end[HI - 1], result.data.index[j])))"),
+         ["merged_cn_by_level", "one_row_per_run", "run_summary"]),
+        ("kept_rows_conserve_what_they_merge", _amp(
+            "forall(0, len(result.data), lambda j: let(lambda r: implies(0 <= r and r < n_groups(), "
+            "result.data.probes[j] == sumof(Vec(HI - LO, lambda i: segarr.data.probes[LO + i])) and "
+            "result.data.weight[j] == sumof(Vec(HI - LO, lambda i: segarr.data.weight[LO + i])) and "
+            "result.data.log2[j] == ite(sumof(Vec(HI - LO, lambda i: segarr.data.weight[LO + i])) > 0, "
+            "sumof(Vec(HI - LO, lambda i: segarr.data.log2[LO + i] * segarr.data.weight[LO + i])) / "
+            "sumof(Vec(HI - LO, lambda i: segarr.data.weight[LO + i])), "
+            "sumof(Vec(HI - LO, lambda i: segarr.data.log2[LO + i])) / (HI - LO))), result.data.index[j]))"),
+         ["run_totals", "run_log2", "one_row_per_run"]),
+        ("in_order", "forall(0, len(result.data), lambda a: forall(0, len(result.data), lambda b: "
+                     "implies(a < b, result.data.index[a] < result.data.index[b])))"),
+        ("every_deleted_or_amplified_run_kept", _amp(
+            "implies(BOUNDS, forall(0, n_groups(), lambda r: implies(LEVAT != 0, "
+            "exists(0, len(result.data), lambda j: result.data.index[j] == r))))"),
+         ["merged_cn_by_level", "one_row_per_run"]),
+    ],
+    ghost=dict(decorated="require_column only raises when the named columns are missing; they are present here",
+               chain_ensures=True, locals_visible=True),
+    props=("C14",), domain="skip",
+    canaries=[("amplified_from_four", 'levels[segarr["cn"] >= 5] = 1', 'levels[segarr["cn"] >= 4] = 1'),
+              ("deletions_marked_as_gains", 'levels[segarr["cn"] == 0] = -1', 'levels[segarr["cn"] == 0] = 1'),
+              ("keeps_the_neutral_runs", 'cnarr[(cnarr["cn"] == 0) | (cnarr["cn"] >= 5)]', 'cnarr[(cnarr["cn"] != 0) & (cnarr["cn"] < 5)]')],
+    notes="result.data.index holds the run numbers of the kept rows (the filter keeps the merger's row labels)",
+)
 
 
 # ----------------------------------------------------------------------------- deductive: what one merged run becomes
@@ -317,6 +398,10 @@ contract(
                  "result.end[0] == cnarr.end[len(cnarr) - 1]"),
         ("sums_conserved", "result.weight[0] == sumof(cnarr.weight) and "
                            "result.probes[0] == (sumof(cnarr.probes) if 'probes' in cnarr else len(cnarr))"),
+        # the merged copy number respects every bound that all copy numbers of the run respect (it lies within their range)
+        ("cn_within_the_runs_range", "'cn' not in cnarr or forall(lambda c: implies(uf_bool('bound', c), "
+                                     "implies(forall(0, len(cnarr), lambda k: c <= cnarr.cn[k]), c <= result.cn[0]) and "
+                                     "implies(forall(0, len(cnarr), lambda k: cnarr.cn[k] <= c), result.cn[0] <= c)))"),
         ("weight_averaged_log2", "result.log2[0] == ite(sumof(cnarr.weight) > 0, "
                                  "sumof(Vec(len(cnarr), lambda k: cnarr.log2[k] * cnarr.weight[k])) / sumof(cnarr.weight), "
                                  "sumof(cnarr.log2) / len(cnarr))"),
